@@ -16,6 +16,7 @@ func init() {
 		ID: "C09",
 		Explanation: "R1 (effect / pointer-provenance analysis): for every function that returns a validator func(*sevsnp.Attestation, []byte) error, the returned closure's whole repo call closure performs no store, map update or copy whose written object has a root other than memory allocated during that call (locals, literals, clones, results of external constructors) or the closure's own per-call parameters; the maker itself writes nothing through its parameters. Captured variables, caller-provided options, pointers loaded from them and globals are shared roots. " +
 			"R2: callers of a maker in gcetcbendorsement pass an options object allocated in the same call. " +
+			"R4: the exported validation entry points of gcetcbendorsement (functions taking a *…ValidateOptions) and their repo call closure write only to objects allocated during the call — nothing is cached in the options value the caller shares between validations. " +
 			"R3: no package-level variable of verify, gcetcbendorsement, extract/... is written outside package initialisation. " +
 			"Under the Go memory model, no shared write ⇒ no data race and no cross-call state, for every interleaving. " +
 			"Not covered: state inside external libraries (go-sev-guest, x509), unsafe/reflection writes.",
@@ -128,6 +129,59 @@ func runC09(c *Ctx) {
 		}
 	}
 	c.S.Floor("R2", "maker call sites outside package verify's makers", 1, ncall)
+
+	// R4: the exported validation entry points themselves keep no state in what the caller shares
+	// ("validators sharing an options value"): SevValidate / TdxValidate and everything they reach in
+	// the repository write only to objects allocated during the call.
+	nEntry := 0
+	for _, f := range c.P.RepoFunctions() {
+		if load.RelPkg(f) != "gcetcbendorsement" || c.isTestFunc(f) || f.Parent() != nil || f.Object() == nil || !f.Object().Exported() || f.Signature.Recv() != nil {
+			continue
+		}
+		// exported functions taking an attestation/quote and an options pointer, returning error
+		takesAtt, takesOpts := false, false
+		for _, p := range f.Params {
+			if namedIs(p.Type(), "github.com/google/go-sev-guest/proto/sevsnp", "Attestation") || namedIs(p.Type(), "github.com/google/go-tdx-guest/proto/tdx", "QuoteV4") || strings.HasSuffix(p.Type().String(), "go-tdx-guest/proto/tdx.QuoteV4") {
+				takesAtt = true
+			}
+			if pt, ok := p.Type().Underlying().(*types.Pointer); ok {
+				if n, ok := pt.Elem().(*types.Named); ok && strings.HasSuffix(n.Obj().Name(), "ValidateOptions") {
+					takesOpts = true
+				}
+			}
+		}
+		if !takesOpts || errIndex(f.Signature) < 0 {
+			continue
+		}
+		_ = takesAtt
+		nEntry++
+		name := load.FuncName(f)
+		clo := c.reachable([]*ssa.Function{f}, nil)
+		eff := &flow.Effects{P: c.P, Funcs: clo, Roots: map[*ssa.Function]bool{f: true}}
+		ws := eff.Writes()
+		bad, unresolved := 0, 0
+		for _, w := range ws {
+			var sh []flow.Root
+			for _, r := range w.Shared() {
+				if p, ok := r.V.(*ssa.Parameter); ok && r.Kind == flow.Param && p.Parent() != f {
+					// a parameter of an inner function that has no call edge in the graph (methods of
+					// instantiated generic types reached through an interface): its object cannot be
+					// traced to the entry point's arguments; counted, not reported
+					unresolved++
+					continue
+				}
+				sh = append(sh, r)
+			}
+			if len(sh) > 0 {
+				bad++
+				c.S.Bad("R4", name+"→"+load.FuncName(w.Fn)+":writes "+w.What, c.pos(w.Instr.Pos()), fmt.Sprintf("the validation entry point writes %s of an object that outlives the call (root: %s %s): validations sharing that options value see each other's state", w.What, sh[0].Kind, describeRoot(sh[0])))
+			}
+		}
+		if bad == 0 {
+			c.S.OK("R4", name+":entry point", c.pos(f.Pos()), fmt.Sprintf("%d writes in a closure of %d functions, all to per-call objects (%d through receivers of generic-instance methods that the call graph cannot trace)", len(ws), len(clo), unresolved), true)
+		}
+	}
+	c.S.Floor("R4", "exported validation entry points taking a *…ValidateOptions", 2, nEntry)
 
 	// R3: globals
 	nglob, badg := 0, 0
